@@ -104,6 +104,10 @@ func main() {
 	f9 := &Grammar{Lex: []LexDef{tok("a", Seq(Lit('a')))}, NTs: []*NTDef{{Head: "S", Alts: []SAlt{{Body: []Sym{st("INVALID"), tk("a")}}, {Body: []Sym{tk("a")}}}}}}
 	add("C10", "F9", "fixed", "b30ce9e", "a string literal \"INVALID\" shared token number 0 with the INVALID token (and a production named INVALID shifted every number); such grammars are now refused",
 		camp.Witness{Kind: "c10", Grammar: f9, Flags: []string{"-a"}, Strs: []string{"combined"}})
+	// ---- F14 (fixed): NUL / BOM in a string literal
+	f14 := "a : 'a' ;\nS : \"w\x00h\" a | \"x\ufeffy\" | a a ;\n"
+	add("C09", "F14", "fixed", "d7221bc", "a NUL character or a byte-order mark inside a string literal was copied into actiontable.go / productionstable.go, which then did not compile (status zero)",
+		camp.Witness{Kind: "c09", Text: f14, Raw: []byte(f14), Flags: []string{"-a"}, Strs: []string{"mutant", "", ""}})
 	// ---- F4b (fixed): Lexer.Reset
 	f4b := &Grammar{Lex: []LexDef{tok("a", Seq(Lit('a'))), ign("!ws", Alts([]Term{Lit(' ')}, []Term{Lit('\n')}))},
 		NTs: []*NTDef{{Head: "S", Alts: []SAlt{{Body: []Sym{tk("a")}}, {Body: []Sym{nt("S"), tk("a")}}}}}}
